@@ -44,6 +44,43 @@ def _compact(obj, limit=1500):
     return {"truncated_json": s[:limit] + "..."}
 
 
+class RunHang(BaseException):
+    """One run of a check did not come back within HANG_S seconds of wall time."""
+
+
+HANG_S = 120
+
+
+def run_guarded(mod, case, keep_log=False):
+    """mod.run_case under a wall-clock watchdog, for the checks that opt in (HANG_WATCHDOG = True: purely
+    sequential engines without simulator threads).  Changed code under test that loops for ever would
+    otherwise kill the worker (exit 2, everything else it found is lost); with the watchdog the run ends
+    as a violation of class <PROP>:hang, which replays the same way."""
+    import signal
+
+    if not getattr(mod, "HANG_WATCHDOG", False):
+        return mod.run_case(case, keep_log=keep_log) if keep_log else mod.run_case(case)
+
+    def on_alarm(signum, frame):
+        raise RunHang()
+
+    old = signal.signal(signal.SIGALRM, on_alarm)
+    signal.setitimer(signal.ITIMER_REAL, HANG_S)
+    try:
+        return mod.run_case(case, keep_log=keep_log) if keep_log else mod.run_case(case)
+    except RunHang:
+        from .core import RunResult
+
+        res = RunResult()
+        res.violation = (f"{mod.PROP}:hang", f"one run did not finish within {HANG_S} s of wall time (the code under test loops or blocks; a run normally takes milliseconds)")
+        res.digest = "hang"
+        res.nontrivial = True
+        return res
+    finally:
+        signal.setitimer(signal.ITIMER_REAL, 0)
+        signal.signal(signal.SIGALRM, old)
+
+
 def _run_chunk(args):
     prop, tier, verif_seed, indices, deadline, det_every = args
     mod = _setup(prop)
@@ -72,7 +109,7 @@ def _run_chunk(args):
             seed = run_seed(verif_seed, prop, tier, i)
             case = mod.gen_case(seed, tier)
             try:
-                res = mod.run_case(case)
+                res = run_guarded(mod, case)
             except Exception as e:  # noqa: BLE001 - a harness bug, never a VIOLATION
                 tb = traceback.format_exc().strip().splitlines()
                 out["anomalies"].append((i, seed, f"harness-exception {type(e).__name__}: {e} @ {tb[-3:-1]}"))
@@ -140,6 +177,8 @@ def explicit_case(mod, v):
 def minimise(mod, case, cls, budget_s=25.0, max_tries=3000):
     """Greedy delta debugging: keep any simpler candidate that still fails with
     the same violation class."""
+    if cls.endswith(":hang"):
+        return case, 0  # (every candidate would cost the watchdog's full wait)
     t0 = time.time()
     tries = 0
     best = case
@@ -177,7 +216,7 @@ def replay_main(prop, path, repo):
     mod = _setup(prop)
     with open(path) as f:
         rep = json.load(f)
-    res = mod.run_case(copy.deepcopy(rep["case"]), keep_log=True)
+    res = run_guarded(mod, copy.deepcopy(rep["case"]), keep_log=True)
     for line in res.extra.get("log", [])[-60:]:
         print("  |", line)
     if res.violation is None:
@@ -203,7 +242,7 @@ def _fresh_replay(prop, path, repo):
     """Replay a file in a fresh interpreter; (cls, digest, detail) or None."""
     cmd = [sys.executable, os.path.join(VERIF_DIR, "vcheck.py"), prop, "--replay", path, "--repo", repo]
     try:
-        p = subprocess.run(cmd, capture_output=True, text=True, timeout=300)
+        p = subprocess.run(cmd, capture_output=True, text=True, timeout=400)
     except subprocess.TimeoutExpired:
         return None
     cls = digest = None
@@ -350,7 +389,7 @@ def check_main(prop, tier, verif_seed, repo, workers, runs=None, budget=None, st
 
     for cls, v in list(by_cls.items())[:6]:
         case = explicit_case(mod, v)
-        r = mod.run_case(copy.deepcopy(case))
+        r = run_guarded(mod, copy.deepcopy(case))
         if r.violation is None or r.violation[0] != cls:
             if fresh_fallback(cls, v, case, f"seen as {cls} in a worker but not when re-run in the same process (the code under test keeps state between runs)"):
                 continue
@@ -359,10 +398,10 @@ def check_main(prop, tier, verif_seed, repo, workers, runs=None, budget=None, st
             )
             continue
         small, tries = minimise(mod, case, cls, budget_s=getattr(mod, "MINIMISE_BUDGET_S", 25.0))
-        r = mod.run_case(copy.deepcopy(small), keep_log=True)
+        r = run_guarded(mod, copy.deepcopy(small), keep_log=True)
         if r.violation is None or r.violation[0] != cls:
             small = case
-            r = mod.run_case(copy.deepcopy(small), keep_log=True)
+            r = run_guarded(mod, copy.deepcopy(small), keep_log=True)
         if r.violation is None or r.violation[0] != cls:
             if fresh_fallback(cls, v, case, f"{cls} reproduced once but not again in the same process"):
                 continue
@@ -386,7 +425,7 @@ def check_main(prop, tier, verif_seed, repo, workers, runs=None, budget=None, st
         # replay in a fresh interpreter: must fail the same way
         cmd = [sys.executable, os.path.join(VERIF_DIR, "vcheck.py"), prop, "--replay", path, "--repo", repo]
         try:
-            p = subprocess.run(cmd, capture_output=True, text=True, timeout=300)
+            p = subprocess.run(cmd, capture_output=True, text=True, timeout=400)
             ok = f"REPLAY-RESULT cls={cls} digest={r.digest}" in p.stdout
         except subprocess.TimeoutExpired:
             ok = False
